@@ -5,6 +5,8 @@
 #include "strmcase.hpp"
 #include "rulegen.hpp"
 
+#include "tzif_ref.hpp"
+#include <map>
 using namespace vh;
 
 struct Ev {
@@ -15,7 +17,17 @@ struct Ev {
 	std::vector<int64_t> rdates, exdates;
 	std::string exrule;
 	int K = 150;
+	std::string xzone;             // RDATE/EXDATE values are written as local times of this zone (TZID parameter of their own); empty = UTC
 };
+// local wall-clock text of UTC instant t in zone zn; false if that local time is ambiguous or does not exist
+static bool local_txt(const std::string &zn, int64_t t, std::string &out) {
+	static std::map<std::string, tzref::Zone> cache; auto it = cache.find(zn); if (it == cache.end()) it = cache.emplace(zn, tzref::load(zn)).first;
+	const tzref::Zone &z = it->second; if (!z.ok) return false;
+	int64_t u = civil::floordiv(t, 1000); if (u < -2145916800LL || u > 2114380800LL) return false;   // zone tables are only relied upon for 1902..2036 (what lies beyond is C07's business)
+	int64_t loc = u + z.off(u); if (z.utc_candidates(loc).size() != 1) return false;
+	out = civil::fmt_ical(loc * 1000, false); if (!out.empty() && out.back() == 'Z') out.pop_back(); return true;
+}
+static bool zlist(const std::string &zn, const std::vector<int64_t> &v, std::string &out) { out.clear(); for (size_t i = 0; i < v.size(); i++) { std::string x; if (!local_txt(zn, v[i], x)) return false; if (i) out += ","; out += x; } return true; }
 static std::string dlist(const std::vector<int64_t> &v, bool d) { std::string s; for (size_t i = 0; i < v.size(); i++) { if (i) s += ","; s += civil::fmt_ical(v[i], d); } return s; }
 static std::string durtxt(int64_t ms) { int64_t s = ms / 1000; std::string t = "P"; if (s >= 86400) { t += std::to_string(s / 86400) + "D"; s %= 86400; } if (s) { t += "T"; if (s >= 3600) { t += std::to_string(s / 3600) + "H"; s %= 3600; } if (s >= 60) { t += std::to_string(s / 60) + "M"; s %= 60; } if (s) t += std::to_string(s) + "S"; } if (t == "P") t = "PT0S"; return t; }
 static std::string render(const Ev &e, bool with_rrule, bool with_rdate, bool with_ex, const std::string &override_rule = "") {
@@ -24,8 +36,9 @@ static std::string render(const Ev &e, bool with_rrule, bool with_rdate, bool wi
 	if (e.dur > 0) { if (e.dur_as_dtend) l.push_back("DTEND" + vd + ":" + civil::fmt_ical(e.start + e.dur, e.date_only)); else l.push_back("DURATION:" + durtxt(e.dur)); }
 	if (!override_rule.empty()) l.push_back("RRULE:" + override_rule);
 	else if (with_rrule && !e.rrule.empty()) l.push_back("RRULE:" + e.rrule);
-	if (with_rdate && !e.rdates.empty()) l.push_back("RDATE" + vd + ":" + dlist(e.rdates, e.date_only));
-	if (with_ex && !e.exdates.empty()) l.push_back("EXDATE" + vd + ":" + dlist(e.exdates, e.date_only));
+	std::string zr, zx; bool zoned = !e.xzone.empty() && !e.date_only && zlist(e.xzone, e.rdates, zr) && zlist(e.xzone, e.exdates, zx);
+	if (with_rdate && !e.rdates.empty()) l.push_back(zoned ? "RDATE;TZID=" + e.xzone + ":" + zr : "RDATE" + vd + ":" + dlist(e.rdates, e.date_only));
+	if (with_ex && !e.exdates.empty()) l.push_back(zoned ? "EXDATE;TZID=" + e.xzone + ":" + zx : "EXDATE" + vd + ":" + dlist(e.exdates, e.date_only));
 	if (with_ex && !e.exrule.empty()) l.push_back("EXRULE:" + e.exrule);
 	return sc::vcal(sc::vevent("c02@verif", e.start, e.date_only, l));
 }
@@ -34,7 +47,7 @@ static std::string render(const Ev &e, bool with_rrule, bool with_rdate, bool wi
 static std::string ctext(const Ev &e) {
 	return "start=" + civil::fmt_ical(e.start, e.date_only) + " k=" + std::to_string(e.K) + " dur=" + std::to_string(e.dur) + " dtend=" + std::to_string((int)e.dur_as_dtend) +
 		" rdate=" + (e.rdates.empty() ? "-" : dlist(e.rdates, e.date_only)) + " exdate=" + (e.exdates.empty() ? "-" : dlist(e.exdates, e.date_only)) +
-		" exrule=" + (e.exrule.empty() ? "-" : e.exrule) + " rrule=" + (e.rrule.empty() ? "-" : e.rrule);
+		" xz=" + (e.xzone.empty() ? "-" : e.xzone) + " exrule=" + (e.exrule.empty() ? "-" : e.exrule) + " rrule=" + (e.rrule.empty() ? "-" : e.rrule);
 }
 static bool cparse(const std::string &t, Ev &e) {
 	auto field = [&](const char *k) -> std::string { size_t p = t.find(std::string(k) + "="); if (p == std::string::npos) return ""; p += strlen(k) + 1; size_t q = t.find(' ', p); return t.substr(p, q == std::string::npos ? q : q - p); };
@@ -43,6 +56,7 @@ static bool cparse(const std::string &t, Ev &e) {
 	auto lst = [&](const std::string &s, std::vector<int64_t> &v) { if (s == "-" || s.empty()) return; std::stringstream ss(s); std::string tok; while (std::getline(ss, tok, ',')) v.push_back(rref::parse_ical_dt(tok, nullptr)); };
 	lst(field("rdate"), e.rdates); lst(field("exdate"), e.exdates);
 	e.exrule = field("exrule"); if (e.exrule == "-") e.exrule.clear();
+	e.xzone = field("xz"); if (e.xzone == "-") e.xzone.clear();
 	e.rrule = field("rrule"); if (e.rrule == "-") e.rrule.clear();
 	return e.K > 0;
 }
@@ -170,8 +184,11 @@ void prop_gen(Ctx &c) {
 			std::string f = g.rrule.substr(0, g.rrule.find(';'));
 			e.exrule = f + ";INTERVAL=" + std::to_string(iv * nth);
 		}
+		// every fourth timed event writes its RDATE/EXDATE values in a zone of their own (DTSTART stays in UTC)
+		{ static const char *ZN[] = {"Europe/Berlin", "America/New_York", "Asia/Tokyo", "Australia/Sydney", "Asia/Kolkata"}; int zsel = *R(0, 19); if (zsel < 5 && !e.date_only && (!e.rdates.empty() || !e.exdates.empty())) e.xzone = ZN[zsel]; }
 		std::string txt = ctext(e);
 		Verdict v = judge(e);
+		if (!e.xzone.empty()) v.classes.push_back("RDATE/EXDATE;TZID");
 		if (v.k == Verdict::DISCARD) { c.st.extra["baseline_failed"]++; RC_DISCARD("baseline"); }
 		c.st.record(txt, v);
 		if (v.k == Verdict::FAIL && survey) { c.st.survey_add(v.msg.substr(v.msg.find('(') == std::string::npos ? 0 : v.msg.find('('), 60) + (e.dur ? " dur>0" : " dur=0"), txt + " :: " + v.msg); return; }
